@@ -256,7 +256,7 @@ class AdvanceProgress(_Sched):
         old = h["P"][A.sim]
         new = p.fresh("progress", a.T)
         if a.small:
-            a.time_terms.append(new)
+            p.assume(And(new >= 0, new < a.TB))
         h["P"] = z3.Store(h["P"], A.sim, new)
         p.assume(And(Inv(M, h), a.le(old, new)))
         return None
